@@ -236,7 +236,7 @@ def cases():
             l2 = l1 if k == 0 else families.scatter_layouts(m, rnd, 3)
             out.append({'label': '%s/k%d' % (m.name, k), 'mesh': m, 'fields1': F1[(i + k) % 3], 'fields2': F2[(i + k) % 3], 'layout1': l1, 'layout2': l2,
                         'geom': (i + k) % 3, 'mismatch': k == 0, 'full': k == 0})
-    for r in range(4 if tier == 'quick' else 30):
+    for r in range(4 if tier == 'quick' else 150):
         m = families.random_mesh(rnd, 3, max_levels=2, max_boxes=4, max_extent=4)
         m.name = 'rand%d-3d' % r
         out.append({'label': m.name, 'mesh': m, 'fields1': F1[r % 3], 'fields2': F2[r % 3], 'layout1': families.scatter_layouts(m, rnd, 3),
